@@ -90,10 +90,12 @@ type TermTable struct {
 	small [256]*Term
 	tt    *Term
 	ff    *Term
+	varsCache  map[int]varsEntry
+	truthCache map[int]bitset
 }
 
 func NewTermTable() *TermTable {
-	tb := &TermTable{tab: map[string]*Term{}, UFs: map[string]*Term{}}
+	tb := &TermTable{tab: map[string]*Term{}, UFs: map[string]*Term{}, varsCache: map[int]varsEntry{}, truthCache: map[int]bitset{}}
 	tb.tt = tb.intern(&Term{Op: OpConst, Sort: BoolSort, Val: 1})
 	tb.ff = tb.intern(&Term{Op: OpConst, Sort: BoolSort, Val: 0})
 	for i := range tb.small {
